@@ -428,6 +428,8 @@ impl Calendar {
             // NOTE: ICU4X reports the ISO year as the extended year of the Minguo calendar;
             // year 1 of the `roc` era is ISO year 1912.
             AnyCalendarKind::Roc => extended_year - 1911,
+            // NOTE: ... and counts the years of the Amete Alem calendar from the incarnation era.
+            AnyCalendarKind::EthiopianAmeteAlem => extended_year + 5500,
             _ => extended_year,
         }
     }
